@@ -23,7 +23,7 @@ T = ['B', 'A']          # the type list is NOT in alphabetical order
 DOMAINS = {1: (256, 0.125), 2: (512, 0.0625)}
 VERS = {
     'rho.A': {1: 0.3, 2: 0.35}, 'rho.B': {1: 0.2, 2: 0.25},
-    'd.A': {1: 1.0, 2: 1.25}, 'd.B': {1: 1.0, 2: 1.25},
+    'd.A': {1: 1.0, 2: 1.25}, 'd.B': {1: 1.0, 2: 1.25, 3: 1.1},        # 1.1 is not a grid point of either domain
     'pot.AA': {1: ['HardSphere'], 2: ['HardCoreLennardJones', 0.2]},
     'pot.AB': {1: ['HardSphere'], 2: ['Exponential', 0.25, 0.5, {'sigma': 0.875}]},      # explicit sigma != (d_a+d_b)/2
     'pot.BB': {1: ['HardSphere'], 2: ['Exponential', 0.1, 0.5]},
@@ -39,7 +39,7 @@ PAIRKEY = {'AA': ('A', 'A'), 'AB': ('A', 'B'), 'BB': ('B', 'B')}
 
 def cfg_text(editable, maxmissing, maxprisms, maxsteps, nxt, edge=True):
     return '\n'.join([
-        'CONSTANTS Items <- MC_Items', 'Optional <- MC_Optional', 'Editable <- %s' % editable, 'Resets <- MC_Resets', 'Needs <- MC_Needs',
+        'CONSTANTS Items <- MC_Items', 'Optional <- MC_Optional', 'Editable <- %s' % editable, 'Resets <- MC_Resets', 'Needs <- MC_Needs', 'Versions <- MC_Versions', 'Warnings <- MC_Warnings',
         'MaxMissing = %d' % maxmissing, 'MaxPrisms = %d' % maxprisms, 'MaxSteps = %d' % maxsteps,
         'INIT MCInit', 'NEXT %s' % nxt, 'VIEW View', 'CHECK_DEADLOCK FALSE',
         'INVARIANTS CreateRaisesIffIncomplete NeverStartsOnPartialSystem SnapshotFaithful SweepEqualsFresh',
@@ -173,8 +173,8 @@ class SysAdapter(Adapter):
             w['results'].pop(0)
             return obs
         before = fingerprint(s)
-        with warnings.catch_warnings():
-            warnings.simplefilter('ignore')
+        with warnings.catch_warnings(record=True) as caught:
+            warnings.simplefilter('always')
             try:
                 if act == 'CreatePRISM':
                     p = s.createPRISM()
@@ -207,6 +207,17 @@ class SysAdapter(Adapter):
                 obs['raises'] = type(ex).__name__
                 obs['message'] = str(ex)
         obs['system_untouched'] = fingerprint(s) == before
+        # what check() warned about: 'Diameter for site X = ...' / 'Sigma for pair X-Y = ...'
+        import re
+        tags = []
+        for c in caught:
+            m = re.match(r'Diameter for site (\S+) = ', str(c.message))
+            if m:
+                tags.append('d.' + m.group(1))
+            m = re.match(r'Sigma for pair (\S+)-(\S+) = ', str(c.message))
+            if m:
+                tags.append('s.' + ''.join(sorted(m.groups())))
+        obs['warns'] = sorted(set(tags))       # a cross pair is visited in both orientations: the SET of lengths warned about
         return obs
 
     def project(self, w):
@@ -219,6 +230,9 @@ class SysAdapter(Adapter):
                                                       'message': obs.get('message', ''), 'missing': label.get('missing')}))
         if obs.get('system_untouched') is False:
             out.append(('SystemUntouchedByCreateSolve', {'what': 'the System differs (deep comparison) after %s' % label['act']}))
+        if 'warns' in label and obs['raises'] == '' and sorted(label['warns']) != obs.get('warns'):
+            out.append(('WarnsIffOffGrid', {'expected': sorted(label['warns']), 'observed': obs.get('warns'),
+                                            'what': 'check() warns about exactly the diameters and contact distances that are not grid points'}))
         return out
 
     # ------------------------------------------------------------------------------
